@@ -27,16 +27,23 @@ structure Params where
   cofactor : Option Nat
   deriving DecidableEq, Repr
 
+/-- `if self.curve.cofactor(): seq_elements.append(encode_integer(cofactor))` -/
+def cofPieces : Option Nat → List Bytes
+  | some h => if h = 0 then [] else [encodeInteger h]
+  | none => []
+
 /-- `Curve.to_der("explicit", point_encoding)`; `base` = `generator.to_bytes(point_encoding)`, `a`, `b` as stored in the
 curve object (possibly negative), `cofactor` `None` or a number (`if self.curve.cofactor():` - zero counts as absent) -/
 def toDer (p : Nat) (a b : Int) (base : Bytes) (order : Nat) (cofactor : Option Nat) : Except Err Bytes := do
   let as ← numberToString (a % (p : Int)).toNat p
   let bs ← numberToString (b % (p : Int)).toNat p
-  let cof := match cofactor with
-    | some h => if h = 0 then [] else [encodeInteger h]
-    | none => []
   pure (encodeSequence ([encodeInteger 1, encodeSequence [encOid oidPrimeField, encodeInteger p],
-    encodeSequence [encodeOctetString as, encodeOctetString bs], encodeOctetString base, encodeInteger order] ++ cof))
+    encodeSequence [encodeOctetString as, encodeOctetString bs], encodeOctetString base, encodeInteger order] ++
+    cofPieces cofactor))
+
+/-- `cofactor = None; if rest: cofactor, _ = der.remove_integer(rest)` -/
+def parseCof (rest : Bytes) : Except Err (Option Nat) :=
+  if rest.isEmpty then .ok none else removeInteger rest >>= fun (c, _) => .ok (some c)
 
 /-- the DER part of the explicit branch of `Curve.from_der`, statement by statement -/
 def parse (s : Bytes) : Except Err Params :=
@@ -48,7 +55,7 @@ def parse (s : Bytes) : Except Err Params :=
   removeSequence rest >>= fun (curve, rest) =>
   removeOctetString rest >>= fun (baseBytes, rest) =>
   removeInteger rest >>= fun (order, rest) =>
-  (if rest.isEmpty then .ok none else removeInteger rest >>= fun (c, _) => .ok (some c)) >>= fun cofactor =>
+  parseCof rest >>= fun cofactor =>
   removeObject fieldId >>= fun (fieldType, rest2) =>
   if fieldType == oidChar2Field then .error .unknownCurve else
   if fieldType != oidPrimeField then .error .unknownCurve else
